@@ -75,7 +75,7 @@ def state_matches(e, st, reg_ptr, spec):
             cmd = e.deref(st, box)
             def chk(c):
                 alen, als = spec.al[n]
-                al = c.f[1]
+                al = c.f[1] if getattr(c, 'ty', None) == CMD_TY else V(0, [])      # commands made by the script-level alias declare no aliases
                 ok = [str_eq(c.f[0], key), zeq(al.len, alen)]
                 for j in range(2):
                     if j < len(al.it): ok.append(zimp(j < alen, str_eq(al.it[j], name_of(als[j]))))
@@ -93,7 +93,7 @@ def state_matches(e, st, reg_ptr, spec):
             cs.append(('alias %s does not dangle' % UNIVERSE[n], zimp(af, tf)))
             if tf is not False:
                 tc = e.deref(st, tbox)
-                lists = lambda c: zor(*[zand(j < c.f[1].len, str_eq(c.f[1].it[j], key)) for j in range(len(c.f[1].it))]) if c.f[1].it else False
+                lists = lambda c: (zor(*[zand(j < c.f[1].len, str_eq(c.f[1].it[j], key)) for j in range(len(c.f[1].it))]) if c.f[1].it else False) if getattr(c, 'ty', None) == CMD_TY else False
                 cs.append(('alias %s is listed by the command it points to' % UNIVERSE[n], zimp(zand(af, tf), umap(tc, lists) if not isinstance(tc, U) else zor(*[zand(c_, lists(x)) for c_, x in tc.alts]))))
     return cs
 
@@ -207,6 +207,84 @@ def job_history(ctx, jr, seqs, from_arbitrary=False):
         H.finish_job(jr, e, res)
 
 
+def job_script_level(ctx, jr):
+    """alias / unalias / remove_command / is_command_defined (the real SDK run functions), one operation from an arbitrary registry
+    (invariant assumed) and an arbitrary set of user aliases; registry and user-alias set compared with the map afterwards"""
+    from .c06 import invocation_context, run_command
+    from mirsym.models import map_lookup as ml
+    jr.bounds = dict(universe=list(UNIVERSE), initial_registry='arbitrary, invariant assumed', user_aliases='arbitrary subset of the universe (names registered through alias and not yet removed through unalias)',
+                     operations=['alias N c x', 'alias N', 'unalias N', 'remove_command N', 'is_command_defined N'], claim='one-operation lemma (DESIGN.md 8.9)')
+    SVT = 'types::runtime::StateValue'; SV = ctx.types.enums[SVT]; SV_B, SV_SUB = SV.index('Boolean'), SV.index('SubState')
+    OPS = {'alias': ('sdk::std::lib::alias::set::CommandImpl', 2), 'alias-short': ('sdk::std::lib::alias::set::CommandImpl', 0), 'unalias': ('sdk::std::lib::alias::unset::CommandImpl', 0),
+           'remove_command': ('sdk::std::lib::command::remove::CommandImpl', 0), 'is_command_defined': ('sdk::std::is_command_defined::CommandImpl', 0)}
+    for op, (ty, extra) in OPS.items():
+        e = ctx.engine(unwind=6); install_command_model(e); t0 = time.time()
+        st0 = State(True, {})
+        spec, reg0 = arbitrary_registry(e, st0)
+        U = [e.fresh_bool('user_alias.%s' % UNIVERSE[n]) for n in range(NU)]
+        sub_present = e.fresh_bool('ALIAS_STATE.present')
+        for n in range(NU): e.assume(z3.Implies(U[n], sub_present))
+        x = e.fresh_int('N', 0, NU - 1)
+        argv = V(1 + extra, [name_of(x)] + [mk_str('c'), mk_str('x')][:extra])
+        ctxv, st = invocation_context(e, argv, commands=reg0)
+        st.m.update({k: v for k, v in st0.m.items() if k not in st.m})
+        st.m[(0, 'reg')] = reg0
+        ctxv = T(list(ctxv.f[:5]) + [P(0, 'reg')] + list(ctxv.f[6:]), ctxv.ty)
+        st.m[(0, 'state')] = M([(sub_present, mk_str('ALIAS_STATE'), E(SVT, SV_SUB, {SV_SUB: [M([(U[n], mk_str(UNIVERSE[n]), E(SVT, SV_B, {SV_B: [True]})) for n in range(NU)])]}))])
+        pre_reg = list(spec.reg); pre_target = list(spec.target)
+        rs, rv = run_command(e, ty, ctxv, st)
+        jr.symex_time += time.time() - t0
+        CONT, ERR = 0, 2
+        out = rv.p[CONT][0] if CONT in rv.p else None
+        def out_is(b): return False if out is None or 1 not in out.p else zand(zeq(rv.d, CONT), zeq(out.d, 1), str_eq(out.p[1][0], merge(b, mk_str('true'), mk_str('false'))))
+        checks = []
+        U2 = list(U)
+        if op == 'alias':
+            acc = spec.set(x, 0, [0, 0])
+            checks.append(('alias N ... registers a command N exactly when the name is free; refused otherwise with an error', zite(acc, out_is(True), zeq(rv.d, ERR))))
+            U2 = [simp(zor(U[n], zand(acc, zeq(x, n)))) for n in range(NU)]
+        elif op == 'alias-short':
+            checks.append(('alias with a name only is an error and changes nothing', zeq(rv.d, ERR)))
+        elif op == 'unalias':
+            isU = sel(U, x, False)
+            was_alias = sel(pre_target, x, -1) >= 0
+            # a user alias: remove the command of that name (through the registry, i.e. resolving an alias of the same spelling first);
+            # otherwise a plain alias-table entry is dropped; otherwise nothing
+            removed = spec.remove(x) if True else None
+            # spec.remove was applied unconditionally: undo it where the name is not a user alias
+            spec.reg = [simp(zite(isU, spec.reg[n], pre_reg[n])) for n in range(NU)]
+            spec.target = [simp(zite(isU, spec.target[n], zite(zand(znot(isU), was_alias, zeq(x, n)), -1, pre_target[n]))) for n in range(NU)]
+            res = zite(isU, removed, was_alias)
+            checks.append(('unalias N: true exactly when a user alias N was removed or an alias-table entry N was dropped', out_is(res)))
+            U2 = [simp(zand(U[n], znot(zand(isU, removed, zeq(x, n))))) for n in range(NU)]
+        elif op == 'remove_command':
+            was = spec.remove(x); checks.append(('remove_command N = registry remove', out_is(was)))
+        else:
+            found, _ = spec.get(x); checks.append(('is_command_defined N = registry lookup (aliases first)', out_is(found)))
+        # registry afterwards
+        st_chk = rs
+        for msg, c in state_matches(e, st_chk, P(0, 'reg'), spec): checks.append(('registry afterwards: ' + msg, c))
+        # user-alias set afterwards
+        sf, ssub, _ = ml(e, rs, e.read(rs, ('mem', 0, 'state', [])), mk_str('ALIAS_STATE'))
+        subm = ssub.p[SV_SUB][0] if isinstance(ssub, E) and SV_SUB in ssub.p else M([])
+        for n in range(NU):
+            f_, _, _ = ml(e, rs, subm, mk_str(UNIVERSE[n]))
+            checks.append(('user-alias set afterwards: %s' % UNIVERSE[n], zeq(zand(sf, f_), U2[n])))
+        for msg, c in checks: e.obligations.append(Obligation(rs.g, c, 'C15 script-level %s: %s' % (op, msg), 'assert', 'oracle'))
+
+        def extract(m, o=None, op=op):
+            init = []
+            for n in range(NU):
+                if solve.model_bool(m, pre_reg[n]) and not solve.model_bool(m, U[n]):
+                    init.append(['set', UNIVERSE[n], [UNIVERSE[y] for y in range(NU) if solve.model_int(m, pre_target[y]) == n]])
+            users = [UNIVERSE[n] for n in range(NU) if solve.model_bool(m, U[n])]
+            return dict(kind='lemma', level='script', init=init, user_aliases=users, registered_users=[u for u in users if solve.model_bool(m, pre_reg[UNIVERSE.index(u)])],
+                        op=op, name=UNIVERSE[solve.model_int(m, x)])
+        res = discharge_known(e, jr, PID, {}, extract)
+        witness(jr, e, 'script-level %s reachable' % op, rs.g, extract)
+        H.finish_job(jr, e, res)
+
+
 # ---------------------------------------------------------------------- native replay: python spec vs real registry
 def py_spec(ops):
     names = {}; aliases = {}; out = []
@@ -230,7 +308,56 @@ def py_spec(ops):
     return out, names, aliases
 
 
+def script_panel_model(ops):
+    """python model of the script-level commands over: f (a function), a (free name), concat (alias of the SDK command std::string::Concat)"""
+    names = {'f': [], 'std::string::Concat': ['concat']}; aliases = {'concat': 'std::string::Concat'}; users = set(); out = []
+    def remove(x):
+        n = aliases.get(x, x)
+        if n in names:
+            for a_ in [a_ for a_, t in aliases.items() if t == n]: del aliases[a_]
+            del names[n]; return True
+        return False
+    for op, n in ops:
+        if op == 'alias':
+            if n in names: out.append('false')
+            else: names[n] = []; aliases.pop(n, None); users.add(n); out.append('true')
+        elif op == 'unalias':
+            if n in users:
+                r = remove(n)
+                if r: users.discard(n)
+                out.append('true' if r else 'false')
+            elif n in aliases: del aliases[n]; out.append('true')
+            else: out.append('false')
+        elif op == 'remove_command': out.append('true' if remove(n) else 'false')
+        else: out.append('true' if aliases.get(n, n) in names else 'false')
+    probe = {n: ('true' if aliases.get(n, n) in names else 'false') for n in ('f', 'a', 'concat', 'std::string::Concat')}
+    return out, probe
+
+
 def replayer(v):
+    if v.get('kind') == 'lemma' and v.get('level') == 'script':
+        # confirmation panel: every sequence of <= 2 script-level operations (and alias-first sequences of 3) over a function name, a free
+        # name, an SDK alias and an SDK full name, run natively and compared with the python model
+        import itertools
+        OPN = ['alias', 'unalias', 'remove_command', 'is_command_defined']; NM = ['f', 'a', 'concat', 'std::string::Concat']
+        single = list(itertools.product(OPN, NM))
+        seqs = [[x] for x in single] + [list(x) for x in itertools.product(single, repeat=2)] + [[('alias', n)] + list(x) for n in ('f', 'a') for x in itertools.product(single, repeat=2)]
+        cases = []
+        for seq in seqs:
+            lines = ['fn f', 'end']
+            for i, (op, n) in enumerate(seq): lines.append('r%d = %s %s%s' % (i, op, n, ' echo x' if op == 'alias' else ''))
+            for j, n in enumerate(NM): lines.append('d%d = is_command_defined %s' % (j, n))
+            cases.append((seq, '\n'.join(lines)))
+        outs = H.replay(dict(mode='batch', cases=[dict(mode='sdk', script=sc) for _, sc in cases]), timeout=600)['results']
+        for (seq, sc), out in zip(cases, outs):
+            if out.get('panic'): v['native'] = out; return (True, 'native panic on %r' % (seq,))
+            exp, probe = script_panel_model(seq)
+            if not out.get('ok'): continue
+            got = [out['vars'].get('r%d' % i) for i in range(len(seq))]; gp = {n: out['vars'].get('d%d' % j) for j, n in enumerate(NM)}
+            if got != exp or gp != probe:
+                v['native'] = out; v['script'] = sc
+                return (True, 'script %r: native results %r / defined %r, model %r / %r' % (seq, got, gp, exp, probe))
+        return (False, '%d script-level sequences behave like the map natively' % len(cases))
     out = H.replay(dict(mode='registry', ops=v['ops'], universe=list(UNIVERSE))); v['native'] = out
     if out.get('panic'): return (True, 'native panic')
     exp, names, aliases = py_spec(v['ops'])
@@ -244,7 +371,7 @@ def replayer(v):
 
 
 def main(tier, seed):
-    chk = H.Check(PID, tier, seed, crates=('core',))
+    chk = H.Check(PID, tier, seed)
     chk.replayer = replayer
     k = 4 if tier == 'quick' else 5
     seqs = [s for s in itertools.product('SRG', repeat=k) if s[0] == 'S' and s.count('S') >= 2]
@@ -253,6 +380,7 @@ def main(tier, seed):
     for gi, g in enumerate(groups):
         if g: chk.job(job_history, 'histories/%d' % gi, seqs=g)
     for op in 'SRG': chk.job(job_history, 'step/%s' % op, seqs=[(op,)], from_arbitrary=True)
+    chk.job(job_script_level, 'step/script-level commands')
     chk.bounds = dict(step_lemmas='set / remove / lookup from an arbitrary registry over the universe satisfying the invariant (no dangling alias; an alias is listed by its command), invariant re-established', universe=list(UNIVERSE), history_length=k, op_kind_sequences=len(seqs), arguments='symbolic (names, alias lists of 0..2, lookup keys)')
     chk.assumptions = ['dyn Command name()/aliases() of registered commands are harness values over the universe {a,b,c}',
                        'op kinds are case-split (one solver run per kind sequence); all arguments are symbolic', 'HashMap modelled as association list; iteration in slot order']
